@@ -569,6 +569,19 @@ pub fn delegate_groups() -> Vec<String> {
     out
 }
 
+/// A text anchor in a place where it does not anchor the whole pattern: optional or repeated
+/// groups, one arm of an alternation, inside look-arounds (start-position shortcuts that treat
+/// such a pattern as anchored; seeds S8-C01b, S9-C04).  `hard` makes the pattern VM-compiled.
+pub fn start_anchor_shapes(hard: &str) -> Vec<String> {
+    let mut out = Vec::new();
+    for x in ["^", "\\A", "(?m:^)"].iter() {
+        for shape in ["(?:Xa)?b", "(X)?b", "(?:Xa)*b", "(?:Xa){0,2}b", "(?:Xa|b)c", "(?:X|a)b", "(?!X)a", "(?=X)a", "(?!Xa).", "(?>Xa)?b", "(?:Xa)??b", "(?:(?:X)a|b)+", "a?(?:X)b", "(?<=X)a|b"].iter() {
+            out.push(std::format!("{}{}", shape.replace("X", x), hard));
+        }
+    }
+    out
+}
+
 /// Commits that merge many log entries although the text is short: counted repeats over
 /// groups that can match empty, inside an atomic scope whose continuation fails (seed
 /// S7-C20: a merge that is only wrong beyond 32 entries).
